@@ -319,3 +319,14 @@ MUTATIONS += [
       find="                if !new_owned_nodes.insert(*own) {\n                    return Err(SubstateDiffError::ContainsDuplicateOwns);\n                }\n\n                if !self.owned_nodes.contains(own) {",
       replace="                let newly_listed = new_owned_nodes.insert(*own);\n                if !newly_listed {\n                    return Err(SubstateDiffError::ContainsDuplicateOwns);\n                }\n\n                if !self.owned_nodes.contains(own) {"),
 ]
+MUTATIONS += [
+ dict(name="benign-c13-reader-count-test-as-greater-than-zero", props=["C13"], benign=True, file="radix-engine/src/kernel/substate_locks.rs",
+      find="                    if *n != 0 {\n                        return Err(SubstateLockError);\n                    }\n",
+      replace="                    if *n > 0 {\n                        return Err(SubstateLockError);\n                    }\n"),
+ dict(name="benign-c44-progress-by-direct-comparison", props=["C44"], benign=True, file="radix-common/src/types/consensus.rs",
+      find="        let difference = (to.0 as i128) - (from.0 as i128);\n        if difference <= 0 {\n            None\n        } else {\n            Some(difference as u64) // if a difference of two u64 is positive, then it fits in u64\n        }",
+      replace="        if to.0 > from.0 {\n            Some(to.0 - from.0)\n        } else {\n            None\n        }"),
+ dict(name="benign-c50-drop-object-comparison-flipped", props=["C50"], benign=True, file="radix-engine/src/system/system.rs",
+      find="            if Some(info.blueprint_info.blueprint_id.clone()) != actor.blueprint_id() {",
+      replace="            if actor.blueprint_id() != Some(info.blueprint_info.blueprint_id.clone()) {"),
+]
